@@ -11,7 +11,12 @@ query and answer payloads; oracle on the real code alone: an answer received on 
 query X is never handed to an asker other than X's — unless the run violates the stated system hypothesis
 (no_stale_alloc), which the harness evaluates on the run itself; the stale-reuse witness is replayed.
 The composition itself (coq/Model/DgramSys.v ystep) is extracted and compared with SystemRun step by step on the
-same schedules, DNS-only and DNS/UDP/TCP mixed (see c11.py)."""
+same schedules, DNS-only and DNS/UDP/TCP mixed (see c11.py).
+Name-server choice (dgram_common.run_c10_resolv): histories of ONE server process during which the remote host's /etc/resolv.conf
+is rewritten - between two queries and between the attempts of one query - run through the real server.main, DnsProxy.try_send AND
+the real helpers.get_random_nameserver / resolvconf_nameservers (only `open` as the helpers module sees it is scripted); oracle on
+the real code alone: every attempt goes to port 53 of a server the file names AT THAT MOMENT (127.0.0.1 when it names none), or to
+the configured resolver whatever the file says (Props/C10.v c10_attempt_target_current states the same of Model/DgramNs.v)."""
 import os
 import sys
 
@@ -27,7 +32,12 @@ RULE = ("event scripts: mostly-valid life cycles (query->reply, query->error->re
         "plus a malformed stream (bad headers, frames for foreign channels, re-opened channels); server crashes are "
         "judged by the script-level classification of c10_server_crash_classified; composed client+server runs on "
         "random schedules with MAX_CHANNEL in {65535, 8, 2, 1}; a script is "
-        "non-trivial when it delivers a datagram or runs more than two steps; distinct by content hash of the script")
+        "non-trivial when it delivers a datagram or runs more than two steps; distinct by content hash of the script; "
+        "resolv.conf histories: 11 handmade (rewritten between two queries / between attempt 1 and 2 of one query after a refused connect or send / "
+        "while a query waits and its receive error triggers the retry; list becoming empty, file disappearing, empty or absent becoming non-empty; "
+        "IPv4 -> IPv6; comment, malformed, mixed-case, tab-separated, CRLF lines; configured resolver) + 150 random (3000 thorough) server-process "
+        "histories of 2-5 iterations with 0-2 queries each, up to 3 attempts per query, replies and receive errors, 1-3 name servers per file "
+        "version out of 12 IPv4/IPv6 addresses, decoy addresses in comment/malformed lines; non-trivial when at least one attempt was made")
 TRUSTED_BASE = [
     "the client's channel table is compared in identifier order, without the None-valued keys finished TCP flows leave behind (the code "
     "never iterates over mux.channels and reads it only through .get(): None and absent are the same to it - Model/Dgram.v tcp_end)",
@@ -36,8 +46,17 @@ TRUSTED_BASE = [
     "modelled, not verified: CPython dict insertion order, bytes %-formatting of ints, bytes.split(b',', 2), struct.pack range checks",
     "the fake listener / sender / resolver sockets, pipe files, select() and clock of harness/props/dgram_common.py stand for the kernel",
     "OverflowError of socket.sendto for ports > 65535 is emulated by the fake socket",
+    "resolv.conf histories: the file boundary is `open` in the namespace of sshuttle.helpers (what tests/client/test_helpers.py patches too) serving "
+    "the scripted current text of /etc/resolv.conf (FileNotFoundError when scripted absent); the file changes only at scripted points (before an "
+    "iteration, right after an attempt's connect), never between get_random_nameserver's read and the connect that follows it; random.shuffle is the "
+    "real one, seeded per history (the oracle is membership); the harness's own reading of resolv.conf(5) (dgram_common.spec_nameservers) is the spec side",
+    "resolv.conf histories are judged on the real code only: Model/DgramNs.v try_send_ns (per-attempt lists) is proved (c10_attempt_target_current) and "
+    "proved equal to the extracted, compared try_send when no rewrite is scripted (c10_try_send_ns_conservative), but is not itself extracted / compared step by step",
 ]
 ASSUMPTIONS = [
+    "'a system name server of the remote host' is read as: named by a `nameserver` line of /etc/resolv.conf as it reads at the moment of the attempt "
+    "(127.0.0.1 if none) - the non-Windows branch of helpers.get_random_nameserver; the Windows branch (powershell Get-DnsClientServerAddress, cached "
+    "per process by the unchanged code) is not exercised; a history models one server process (the module's name-server cache is cleared at its start only)",
     "port fields put on the wire by the peer are plain ASCII digit strings (Python's int() also accepts signs, blanks and '_'; not modelled)",
     "socket.socket() itself and getaddrinfo() of the configured name server do not fail (EMFILE / gaierror are outside the model)",
     "same address-family constants on both ends (the UDP path passes listener.family through int())",
